@@ -126,9 +126,21 @@ macro_rules! harnesses {
 
 pub mod refcbor;
 pub mod refcbor_dec;
+pub mod common;
+pub mod c11;
 pub mod c14;
 
 harnesses! {
+    c11_enc_base [stub 4] => c11::enc_base;
+    c11_enc_enterprise [stub 4] => c11::enc_enterprise;
+    c11_enc_reward [stub 4] => c11::enc_reward;
+    c11_rt_base [stub 4] => c11::rt_base;
+    c11_rt_enterprise [stub 4] => c11::rt_enterprise;
+    c11_rt_reward [stub 4] => c11::rt_reward;
+    c11_pointer_roundtrip [stub 12] => c11::pointer_roundtrip;
+    c11_strict_parse_short [stub 8] => c11::strict_parse_short;
+    c11_strict_parse_base [stub 4] => c11::strict_parse_base;
+    c11_embedded_verbatim_short [stub 36] => c11::embedded_verbatim_short;
     c14_bignum_arith [stub 3] => c14::bignum_arith;
     c14_bignum_encode [stub 12] => c14::bignum_encode;
     c14_bignum_decode [stub 12] => c14::bignum_decode;
